@@ -130,7 +130,18 @@ func consumers(r *vlib.Run) {
 		}
 		os.WriteFile(filepath.Join(root, "BUILD.dawn"), []byte(b.String()), 0o644)
 		rec := &printRec{Events: dawn.DiscardEvents}
-		if _, err := dawn.Load(root, &dawn.LoadOptions{Events: rec, Builtins: starlark.StringDict{"os": starlark_os.Module}}); err != nil {
+		// every other project is opened through a symbolic link to its root directory (a checkout
+		// reached through a link): the same tree, so the same selections
+		open := root
+		if ci%2 == 1 {
+			open = root + ".link"
+			os.Remove(open)
+			if err := os.Symlink(root, open); err != nil {
+				vlib.Fatalf("symlink: %v", err)
+			}
+			defer os.Remove(open)
+		}
+		if _, err := dawn.Load(open, &dawn.LoadOptions{Events: rec, Builtins: starlark.StringDict{"os": starlark_os.Module}}); err != nil {
 			vlib.Fatalf("glob consumer project does not load: %v", err)
 		}
 		for _, line := range rec.lines {
